@@ -171,6 +171,9 @@ def execute(scenario):
     result.trace = {"expected": expected[:6], "actual": outcome["items"][:6], "closed": outcome["closed"]}
 
     features = ["format=" + fmt]
+    changed_row = run.rows_changed()
+    if changed_row is not None:
+        raise core.Violation("returned-row-changed-later", features, "item %d was %r when returned, is %r after the run" % changed_row)
     if run.stream_closed_behind_callers_back():
         raise core.Violation("caller-stream-closed-by-cutplace", features, "the stream passed in as data source is closed after the run")
     if outcome["raised"] is not None:
